@@ -252,7 +252,7 @@ def check_C16(report: common.Report):
         with open(cfg, 'w', encoding='utf8') as handle:
             handle.write('SPECIFICATION Spec\nINVARIANT C16_EachKeyOnce\nINVARIANT C16_BulkIsPointwise\n'
                          'INVARIANT C16_FlagsPositional\nINVARIANT C16_SameOutcome\nCHECK_DEADLOCK FALSE\n')
-        res = tlc.run('BulkTrace', cfg, workers=8, timeout=1500, args=['-continue'], env={'TRACE_FILE': trace_file})
+        res = tlc.run('BulkTrace', cfg, workers=1, timeout=1500, args=['-continue'], env={'TRACE_FILE': trace_file})
     hits = []
     for chunk in re.split(r'(?=Error: Invariant \w+ is violated)', res.output):
         m = re.match(r'Error: Invariant (\w+) is violated', chunk)
